@@ -214,6 +214,17 @@ def check_pair(ctx, case):
     kind = case["others"][0]["kind"]
     values = lengths_present(rt1) and lengths_present(rt2)
     if values:
+        # the FIRST distance ever computed on a pair of tree objects may be any of the functions (the call encodes and
+        # thereby restructures the trees: unifurcations, basal bifurcation), so each is also asked first on fresh objects
+        o0 = oracle(rt1, rt2, rooted)
+        for name, fn, want in (("wrf", tc.weighted_robinson_foulds_distance, o0["wrf"]), ("eu", tc.euclidean_distance, o0["eu"]),
+                               ("sd", tc.symmetric_difference, o0["sd"])):
+            fa = shapes.build_tree(spec_with_lengths(rt1), ns, taxa, is_rooted=rooted_flag)
+            fb = shapes.build_tree(spec_with_lengths(rt2), ns, taxa, is_rooted=rooted_flag)
+            v1 = ctx.call("C04.first_call:" + name, fn, fa, fb)
+            v2 = ctx.call("C04.first_call:" + name, fn, fa, fb)
+            ctx.check(close(v1, want, o0["scale"]) and close(v2, want, o0["scale"]), "first_call_on_fresh_trees", "C04.first_call:" + name,
+                      lambda: "%s first call %r, repeated %r, want %r; t1=%s t2=%s rooted=%r" % (name, v1, v2, want, rt1.canon(lengths=True), rt2.canon(lengths=True), rooted_flag))
         o, w, e = compare_all(ctx, t1, t2, rt1, rt2, rooted, True, "pair:" + kind)
         o2, w2, e2 = compare_all(ctx, t2, t1, rt2, rt1, rooted, True, "pair-swapped:" + kind)
         ctx.check(close(w, w2, o["scale"]) and close(e, e2, o["scale"]) and o["sd"] == o2["sd"], "value_symmetry", "C04.symmetry",
